@@ -56,6 +56,15 @@ type jsonOpt struct {
 	C string   `json:"c,omitempty"`
 }
 
+// header names that differ only in case, in a trailing digit or by being a prefix of one another are different columns
+type rowK struct {
+	Lower  float64 `header:"k"`
+	Upper  float64 `header:"K"`
+	Long   int     `header:"kk"`
+	K1     string  `header:"k1"`
+	Kspace string  `header:"k k"`
+}
+
 type rowP struct { // header permutation shape
 	W string  `header:"w"`
 	X int     `header:"x"`
@@ -303,11 +312,14 @@ func headerUnit(c *core.Ctx) {
 			h[i] = cols[j]
 		}
 		check(fmt.Sprint("permutation ", p), h, p, want)
-		// one extra column at every position
+		// one extra column at every position; its name is unrelated, or differs from a real column only in case,
+		// by a doubled letter or by a suffix (header names are matched exactly)
 		for at := 0; at <= 4; at++ {
-			h2 := append(append(append([]string{}, h[:at]...), "extra"), h[at:]...)
-			p2 := append(append(append([]int{}, p[:at]...), -1), p[at:]...)
-			check(fmt.Sprint("permutation ", p, " extra column at ", at), h2, p2, want)
+			for _, name := range []string{"extra", "W", "X", "Y", "Z", "ww", "x1", "W ", ""} {
+				h2 := append(append(append([]string{}, h[:at]...), name), h[at:]...)
+				p2 := append(append(append([]int{}, p[:at]...), -1), p[at:]...)
+				check(fmt.Sprintf("permutation %v extra column %q at %d", p, name, at), h2, p2, want)
+			}
 		}
 	}
 	// one missing column: the field keeps its zero value
@@ -679,6 +691,19 @@ func init() {
 					}
 					return ""
 				})
+			}})
+			us = append(us, core.Unit{Key: "csv-near-equal-headers", Cost: 5, Run: func(c *core.Ctx) {
+				var rows []*rowK
+				for _, a := range []float64{1.5, -2} {
+					for _, b := range []float64{2.5, 0} {
+						for _, l := range []int{3, -7} {
+							for _, k1 := range []string{"a", ""} {
+								rows = append(rows, &rowK{a, b, l, k1, "z" + k1})
+							}
+						}
+					}
+				}
+				rtUnit(c, "struct with headers k, K, kk, k1, 'k k'", rows, nil)
 			}})
 			us = append(us, core.Unit{Key: "csv-header", Cost: 5, Run: headerUnit})
 			us = append(us, core.Unit{Key: "csv-file-histories", Cost: 40, Run: func(c *core.Ctx) { fileHistUnit(c, depth) }})
